@@ -114,9 +114,9 @@ func checkFuzzSize(c fzCase) error {
 		return fmt.Errorf("Marshal failed on accepted content: %v", err)
 	}
 	if c.Touch && exception {
-		if size < len(b) {
-			return fmt.Errorf("Size %d < len(Marshal) %d even under the lazy/non-minimal exception", size, len(b))
-		}
+		// no relation is asserted here: the raw lazy bytes can be longer (padded varints, split
+		// submessages) or shorter (map entries with omitted default key/value, packed form of an
+		// unpacked field) than what Marshal writes after the field has been expanded
 	} else if size != len(b) {
 		return fmt.Errorf("Size = %d but len(Marshal) = %d (dynamic %v lazy %v det %v touch %v)", size, len(b), c.Dynamic, c.Lazy, c.Det, c.Touch)
 	}
